@@ -10,6 +10,7 @@ import OPModel.Drive.C03
 import OPModel.Drive.C02
 import OPModel.Drive.C16
 import OPModel.Drive.C17
+import OPModel.Drive.C10
 
 open OP
 
@@ -28,6 +29,7 @@ def handle (line : String) : String :=
   | "wrapper" :: args => Drive.wrapper args
   | "clean" :: args => Drive.clean args
   | "rdp" :: args => Drive.rdpOp args
+  | "zones" :: args => Drive.zonesOp args
   | "pinch" :: args => Drive.pinch args
   | "pincht" :: args => Drive.pincht args
   | _ => "bad-op"
